@@ -10,7 +10,8 @@ import msggen
 
 THEOREMS = ["C07.c07_prim", "C06.c06_pump_total", "C08.c08_skip_exceeded", "C08.c08_pad_subceeded",
             "WI.bind", "owner_wi", "bytes_no_own", "decode_wi", "sizedLoop_wi", "decodeCommand_wm", "decodeResponse_wm", "decodeStream_wm",
-            "runWalker_wm", "C08.c08_no_escape_msg", "C08.c08_no_escape_type", "runWalker_mrel"]
+            "runWalker_wm", "C08.c08_no_escape_msg", "C08.c08_no_escape_type", "runWalker_mrel",
+            "runWalker_acctw", "ownCatch_acctw", "assertDoneSC_acctw", "C08.c08_tiling"]
 
 
 def allowed_escape(block):
